@@ -141,23 +141,24 @@ Definition withdraw_rewards (s : pst) (d : acct) (v : valid) : pst :=
   set_rwd (pay s (wdr s d) r) (up2 (rwd s) d v 0).
 
 Definition transfer_shares (s : pst) (v : valid) (from to : acct) (sh : Z) : res :=
-  if negb (isval s v) then Err
+  if Z.eqb from to then Err                               (* "cannot transfer shares to the same address" *)
+  else if negb (isval s v) then Err
   else if dlg s from v <=? 0 then Err                     (* GetDelegation(from): no delegation *)
   else if rrd s from v then Err                           (* from has receiving redelegation *)
   else if dlg s from v <? sh then Err                     (* insufficient shares *)
   else
     let s1 := withdraw_rewards s from v in
     let to_found := 0 <? dlg s1 to v in
-    let d_to := dlg s1 to v in                            (* toDel is read here ... *)
+    let d_to := dlg s1 to v in
     let s2 := if to_found then withdraw_rewards s1 to v else s1 in
     let s3 := set_dlg s2 (up2 (dlg s2) from v (dlg s2 from v - sh)) in
-    Ok (set_dlg s3 (up2 (dlg s3) to v (d_to + sh))).      (* ... and written from the stale copy *)
+    Ok (set_dlg s3 (up2 (dlg s3) to v (d_to + sh))).
 
 Definition method_run (caller : acct) (value : Z) (c : call) (s : pst) : res :=
   match c with
   | CAllowanceShares _ _ _ | CDelegation _ _ | CSlashingInfo _ | CValidatorList
   | CBridgeCoinAmount | CHasOracle | CIsOracleOnline => Ok s
-  | CDelegationRewards _ _ => Ok s     (* its period bump (finding C09-1) is outside this state *)
+  | CDelegationRewards _ _ => Ok s
   | CApproveShares v sp sh =>
       if sh <? 0 then Err else Ok (set_alw s (up3 (alw s) v caller sp sh))
   | CTransferShares v to sh =>
